@@ -55,7 +55,7 @@ def generate(rng, tier, index):
     scenario = rng.choice(["S0", "S0", "S0", "S1", "S1", "S2", "S3", "S4", "S4"])
     if scenario == "S0":
         wp = _small_world(rng, ("local", "file", "simfs", "simfs_opt"))
-        n_k = 24 if tier == "quick" else 48
+        n_k = 16 if tier == "quick" else 40
         ks = [{"abs": 0}, {"abs": 1}, {"abs": 2}, {"fromend": 1}, {"fromend": 0}]
         ks += [{"struct": rng.random()} for _ in range(n_k // 3)]
         ks += [{"frac": rng.random()} for _ in range(n_k - len(ks))]
@@ -267,7 +267,10 @@ def run_s0(c, ref):
             first_bad = k
         if k < len(doc):
             SIM.probe("torn_index_seen_by_reader")
-        if ok and (k in (0, 1, len(doc) - 1) or len(seen) % 8 == 0):
+        # "a later successful create_cache=True repairs it" - checked after every planted prefix
+        # (in the exhaustive shards: after every 4th, and always after a token boundary)
+        if ok and (not plan.get("exhaustive") or len(seen) % 4 == 0
+                   or (0 < k <= len(doc) and doc[k - 1:k] in b'{}[]",:')):
             c.repair_ok(ref, where, k=k, doc_len=len(doc))
     _clear(c)
     if first_bad is not None and len(ks) > 1:
